@@ -583,7 +583,9 @@ def do_op(sim, client, op):
             if kind == "mk":
                 kw = dict(op[1])
                 if not 0 <= kw["year"] <= 9999:
-                    kw["num_expanded_year_digits"] = 2
+                    # (an odd year also takes three expanded digits, which
+                    # registers a further dumper in TIMEPOINT_DUMPER_MAP)
+                    kw["num_expanded_year_digits"] = 2 + kw["year"] % 2
                 return canon(data.TimePoint(**kw))
             if kind == "add":
                 return canon(sh.tp.parse(op[1]) + sh.dp.parse(op[2]))
